@@ -93,14 +93,14 @@ CLAIMED["C09"] = dict(
     technique="polynomial identities over Z/2^32 on the extracted unsigned instantiation (cbmc --z3 --outfile + z3 sum-of-monomials)",
     ref="6/C09, 10.3")
 CLAIMED["C10"] = dict(
-    text="Proof for the algebraic clauses, homogenised so that each identity holds for EVERY quaternion and specialises to the property at unit norm N = q.q = 1 (RING, T = unsigned): v*q == v*q.toMatrix33(); q.rotateVector(v) == v*q + (N-1)v; toMatrix33 and toMatrix44 hold the same block with an affine border; with K(q) = M(q) + (N-1)I, K(q1*q2) == K(q2)*K(q1) (quaternion multiplication is multiplication of the rotation matrices, row-vector convention); ~q negates the vector part only and q * ~q == (N,0,0,0). Interpolation family (Quat<float>, arithmetic and libm uninterpreted): slerpShortestArc == slerp towards the representative of q2 with non-negative dot product (never the long way round); squad == slerp(slerp(q1,q2,t), slerp(qa,qb,t), 2t(1-t)); intermediate == normalized(q1 * exp(-1/4 (log(q1^-1 q0) + log(q1^-1 q2)))) with that operand order; spline == squad(q1, intermediate(q0,q1,q2), intermediate(q1,q2,q3), q2, t) (checked modularly against pure-function interfaces of its callees). RETYPE (float text over Z/2^32, a/b = a*inv(b)): inverse(q) == conjugate(q)/(q^q) and q * inverse(q) == inverse(q) * q == (N inv(N), 0, 0, 0), the identity for q != 0.",
+    text="Proof for the algebraic clauses, homogenised so that each identity holds for EVERY quaternion and specialises to the property at unit norm N = q.q = 1 (RING, T = unsigned): v*q == v*q.toMatrix33(); q.rotateVector(v) == v*q + (N-1)v; toMatrix33 and toMatrix44 hold the same block with an affine border; with K(q) = M(q) + (N-1)I, K(q1*q2) == K(q2)*K(q1) (quaternion multiplication is multiplication of the rotation matrices, row-vector convention); the same for the in-place spelling q1 *= q2 (distinct and aliased operand); ~q negates the vector part only and q * ~q == (N,0,0,0). Interpolation family (Quat<float>, arithmetic and libm uninterpreted): slerpShortestArc == slerp towards the representative of q2 with non-negative dot product (never the long way round); squad == slerp(slerp(q1,q2,t), slerp(qa,qb,t), 2t(1-t)); intermediate == normalized(q1 * exp(-1/4 (log(q1^-1 q0) + log(q1^-1 q2)))) with that operand order; spline == squad(q1, intermediate(q0,q1,q2), intermediate(q1,q2,q3), q2, t) (checked modularly against pure-function interfaces of its callees). RETYPE (float text over Z/2^32, a/b = a*inv(b)): inverse(q) == conjugate(q)/(q^q) and q * inverse(q) == inverse(q) * q == (N inv(N), 0, 0, 0), the identity for q != 0.",
     note="Trusted: clang AST + cxx2c, cbmc, z3-new som. Not covered: exp/log, axis/angle, extractQuat, setRotation(from,to), slerp values, Quat vs Matrix44 setAxisAngle (transcendental functions, normalisation).",
     technique="polynomial identities over Z/2^32 on the extracted unsigned instantiation (cbmc --z3 --outfile + z3 sum-of-monomials)",
     ref="6/C10, 10.3")
 
 CLAIMED["C15"] = dict(
     text="Proof for the clauses that are algebraic identities (the rest of C15 is listed as not covered): the extracted text of the FLOAT instantiation is evaluated over the commutative ring Z/2^32 with division as multiplication by an uninterpreted inverse and sqrt uninterpreted (RETYPE), so each result is an identity of the rational expressions the code computes on every path: Plane3(p0,p1,p2) and Plane3(point, normal) have zero signed distance to their defining points, the stored normal is parallel to the given one; reflectPoint negates the signed distance and reflectPoint / reflectVector are involutions (homogeneous in N = n.n, i.e. at unit normal); intersect / intersectT are false exactly for n.dir == 0, intersect's point is line(intersectT's t), lies on the line, and on the plane up to the explicit residual (n.pos - d)(1 - (n.dir) inv(n.dir)); -plane; Line3(p0,p1) starts at p0 with direction parallel to p1 - p0; closestPointTo(point) lies on the line with the connecting segment perpendicular to the direction (homogeneous in dir.dir); project / orthogonal / reflect satisfy their vector identities.",
-    note="Partial. Trusted: clang AST + cxx2c (float instantiation differentially validated natively), cbmc SMT generation, z3 4.8.12 / z3 5.1 sum-of-monomials. Exact-arithmetic identities only: rounding ('to within rounding'), unit length of constructed normals (sqrt(x)^2 = x), the line-line functions, Sphere3, triangle intersection, plane x matrix, closestVertex, rotatePoint are NOT covered. Seen while reading, outside these obligations and not repaired: Line3::distanceTo(Line3) omits the division by |d1 x d2| (findings/C15_line_distanceTo_line_demo.cpp).",
+    note="Partial. Trusted: clang AST + cxx2c (float instantiation differentially validated natively), cbmc SMT generation, z3 4.8.12 / z3 5.1 sum-of-monomials. Exact-arithmetic identities only: rounding ('to within rounding'), unit length of constructed normals (sqrt(x)^2 = x), the line-line functions, Sphere3, triangle intersection, plane x matrix, rotatePoint are NOT covered. Line3::distanceTo(point) == length of closestPointTo(point) - point, and closestVertex(v0,v1,v2,line) == the first vertex of minimal squared distance to the line, are decided on the same extracted text. Seen while reading, outside these obligations and not repaired: Line3::distanceTo(Line3) omits the division by |d1 x d2| (findings/C15_line_distanceTo_line_demo.cpp).",
     technique="polynomial identities over Z/2^32 on the extracted float instantiation with the element type reinterpreted (RETYPE: inverse and sqrt uninterpreted), cbmc --z3 --outfile + z3 sum-of-monomials",
     ref="6/C15, 10.1, 10.3")
 
